@@ -47,17 +47,17 @@ type Case struct {
 }
 
 type live struct {
-	what   string
-	step   int
-	b      []byte // encoder output / ucs2 bytes
-	parts  [][]byte
-	str    string
-	pdu    gen.Codec
-	bind   *gen.Binding
-	snapB  []byte
-	snapP  [][]byte
-	snapV  *ref.Vals
-	isStr  bool
+	what       string
+	step       int
+	b          []byte // encoder output / ucs2 bytes
+	parts      [][]byte
+	str        string
+	pdu        gen.Codec
+	bind       *gen.Binding
+	snapB      []byte
+	snapP      [][]byte
+	snapV      *ref.Vals
+	isStr      bool
 	fromDecode bool
 }
 
@@ -134,6 +134,16 @@ func run(c Case) *vk.Violation {
 			if err == nil {
 				keep(&live{what: "IEncode:" + s.ID(), step: step, b: out, snapB: append([]byte{}, out...)})
 			}
+		case "encodebad":
+			// a failing encode (value longer than its slot) must not disturb anything either
+			s, v := ref.FromJ(*op.Vals)
+			for _, f := range s.Fields {
+				if f.Kind == ref.FixStr {
+					v.F[f.Name] = bytes.Repeat([]byte("x"), f.W+5)
+					break
+				}
+			}
+			_, _ = gen.ByID(s.ID()).Fill(v).IEncode()
 		case "decode", "framedecode":
 			s, v := ref.FromJ(*op.Vals)
 			b := gen.ByID(s.ID())
@@ -257,9 +267,13 @@ var texts = []string{"hello", "1234567@abcdefgh", "中文短信内容测试", "[
 	string(bytes.Repeat([]byte("中文"), 80)), string(bytes.Repeat([]byte("[a"), 100))}
 
 var opGen = rapid.Custom(func(t *rapid.T) Op {
-	k := rapid.SampledFrom([]string{"encode", "encode", "decode", "decode", "decode", "framedecode", "string", "split", "batch", "ucs2", "scribble"}).Draw(t, "k")
+	k := rapid.SampledFrom([]string{"encode", "encode", "encodebad", "decode", "decode", "decode", "framedecode", "string", "split", "batch", "ucs2", "scribble"}).Draw(t, "k")
 	op := Op{K: k, Idx: rapid.IntRange(0, 47).Draw(t, "idx")}
 	switch k {
+	case "encodebad":
+		b := gen.ByID(rapid.SampledFrom([]string{"cmpp20.PduSubmit", "cmpp30.Submit", "sgip12.Submit", "smgp30.Submit", "cmpp20.PduConnect", "smgp30.Login"}).Draw(t, "badtype"))
+		j := ref.ToJ(b.Spec, gen.DrawVals(t, b, gen.Opts{NoTails: true}))
+		op.Vals = &j
 	case "encode", "decode", "framedecode":
 		b := gen.DrawBinding(t, k != "framedecode")
 		// types whose decoded value holds slices are preferred for decodes
